@@ -88,7 +88,7 @@ def SNAP(loc):
     return tuple(sorted((k, FREEZE(v)) for k, v in loc.items() if k in LOCALNAMES))
 
 def SITE(sid, name, form, value):
-    TRACE.append(("bind", name, value, form, sid))
+    TRACE.append(("bind", name, FREEZE(value, 0, True), form, sid))
     fn = SUBST.get("site")
     if fn is not None:
         return fn(sid, name, form, value)
@@ -98,7 +98,7 @@ def SITE_INDEX(sid, base, idx, value):
     return SITE(sid, "%s[%r]" % (base, idx), "index", value)
 
 def META(name, value):
-    TRACE.append(("meta", name, value, None, None))
+    TRACE.append(("meta", name, FREEZE(value, 0, True), None, None))
     fn = SUBST.get("meta")
     if fn is not None:
         return fn(name, value)
@@ -130,8 +130,16 @@ class _Absent:
     pass
 
 
-def freeze(v, depth=0):
-    """Canonical, comparable, JSON-friendly form of a value; ptera's marker stays recognisable."""
+def freeze(v, depth=0, event=False):
+    """Canonical, comparable, JSON-friendly form of a value; ptera's marker stays recognisable.
+
+    event=True: the mutable argument objects (OBJ instances, dicts) are rendered opaquely, because
+    an event carries the object itself and the harness looks at it later than the twin does."""
+    if event:
+        if isinstance(v, dict):
+            return "<dict>"
+        if type(v).__name__ == "OBJ":
+            return "<OBJ>"
     from ptera.utils import ABSENT
 
     if v is ABSENT:
